@@ -100,4 +100,10 @@ CHECKS["C14"] = {
     "note": "Compatibility semantics follow space.hash / is_compatible as documented; the pool uses the icosahedron because the P1-DP0 mass matrix is singular on octahedron/cube refinements (cond guard 1e3).",
 }
 
+CHECKS["C13"] = {
+    "technique": "reference-model monitor: mass / surface-gradient matrices, projections, integrals and evaluations against degree-exact reference quadrature with reference shape functions",
+    "text": "identity(domain, ., dual) for all pairs of DP0/DP1/P1/RWG/SNC spaces (segments, support_elements, boundary dofs, test and trial chosen independently) is compared to 1e-12 with a reference mass matrix built from vertex coordinates, reference shape functions and a degree-exact collapsed Gauss rule, for every library order that integrates the product exactly (orders 1..20 swept); SPD / area-sum checks; Laplace-Beltrami vs reference surface-gradient matrix (symmetric, PSD, kills constants); projection of in-space callables (jit, non-jit, vectorised, parameterised, real/complex) returns exact coefficients; integrate, l2_norm, projections, evaluate, evaluate_on_vertices, evaluate_on_element_centers and MultiplicationOperator agree with direct reference quadrature of the represented function on non-uniform meshes.",
+    "note": "Reference shape functions and rule are the check's own (vlib.refmodel); DOF maps come from the spaces (C09 decides them).",
+}
+
 NOT_APPLICABLE = {}
